@@ -1,13 +1,14 @@
 SPECIFICATION Spec
 CONSTANTS
-  OrbKinds = {"n", "P", "a"}
-  SpinKinds = {"f", "p"}
-  AllowDeferred = FALSE
+  OrbKinds = {"P"}
+  SpinKinds = {"f"}
+  AllowDeferred = TRUE
   SpinSync = FALSE
-  ObliqOn = TRUE
+  ObliqOn = FALSE
   FixTerms = TRUE
   FixLove = TRUE
 INVARIANT C13_Fresh
 INVARIANT C17_Kepler
 INVARIANT SyncHolds
 CHECK_DEADLOCK FALSE
+INVARIANT PendingMeansDeferred
